@@ -446,17 +446,6 @@ func genRawPlan(rt *rapid.T) plan {
 	return p
 }
 
-// headerSafe: the HTTP/2 layer rejects field values with control characters
-// before grpc-go sees them; such paths are outside this property's domain.
-func headerSafe(b []byte) bool {
-	for _, c := range b {
-		if c < 0x20 && c != '\t' || c == 0x7f {
-			return false
-		}
-	}
-	return true
-}
-
 func runRaw(t *testing.T, p plan) vk.Result {
 	var res vk.Result
 	msg := vk.Bubble(t, func(t *testing.T) { res = runRawInBubble(p) })
@@ -550,5 +539,3 @@ func TestVerifC26Raw(t *testing.T) {
 		Gen:  genRawPlan, Run: runRaw,
 	})
 }
-
-var _ = headerSafe
